@@ -27,6 +27,7 @@ SPEC = {
 FEATS = dict(div=False, ts=False, strftime=False, nulls_order=True, setops_all=True, window=True,
              semi_anti=False, casts=True, like=True, mod=True, ifnull=False, cte_cols=False,
              full_join=True,
+             derived_window=False,          # pushdown_projections / merge_subqueries mishandle windows in derived tables (probes)
              any_sub=False,                 # unnest_subqueries compares the operand with a boolean for correlated ANY
              group_derived_expr=False,      # simplify rewrites an inlined GROUP BY expression differently from SELECT
              derived_order_nolimit=False,   # merge_subqueries keeps an inner ORDER BY that names dropped aliases
@@ -58,6 +59,8 @@ PROBES = [
      "SELECT * FROM t1 WHERE NOT (t1.k <> (SELECT MAX(x6.k) FROM t2 AS x6) AND 2 IN (SELECT x7.a2 FROM t2 AS x7 WHERE x7.k = t1.k))"),
     ("probe/simplify:or-of-two-bounds-on-one-column-keeps-the-wrong-one",
      "SELECT CASE WHEN '' <= x1.s1 OR x1.s1 > '' THEN 1 ELSE 0 END AS p3 FROM t1 AS x1"),
+    ("probe/pushdown_projections:unused-window-projection-replaced-by-MAX(1)",
+     "WITH cte1 AS (SELECT MIN(3 - x1.b1) OVER () + 0 AS p4, x1.k AS p5 FROM t1 AS x1) SELECT COUNT(2) AS m9 FROM cte1 AS c8"),
     ("probe/eliminate_joins:cross-joined-derived-table-may-be-empty",
      "SELECT x1.a1 AS p9 FROM t1 AS x1 CROSS JOIN (SELECT MAX(a2) AS m7 FROM t2 AS x2 WHERE x2.a2 > 100 GROUP BY x2.k) AS d8"),
     ("probe/simplify:comparison-flipped-in-select-not-in-group-by",
@@ -125,7 +128,22 @@ def targeted(rng, tables):
     agg = rng.choice(["MAX", "MIN", "SUM", "COUNT"])
     jk = rng.choice(["LEFT JOIN", "LEFT JOIN", "JOIN", "RIGHT JOIN", "FULL JOIN"])
     sel = rng.choice([f"x.{a} AS p1", f"x.{a} AS p1, x.{d} + 1 AS p2", f"x.{a} AS p1, y.{'m' if rng.random() < 0.5 else 'g'} AS p2"])
-    shape = rng.randrange(5)
+    shape = rng.randrange(8)
+    if shape >= 5:
+        # the window guard of pushdown_predicates / merge_subqueries: every projection of the derived table is used outside
+        part = rng.choice(["", f"PARTITION BY {a}", f"PARTITION BY {d}"])
+        order = rng.choice(["", f"ORDER BY {a} NULLS FIRST, {d} NULLS FIRST" if not part else ""])
+        fn = rng.choice([f"SUM({d})", f"MAX({a})", "COUNT(*)", f"MIN({d})"])
+        win = f"{fn} OVER ({part})" if not order else f"{fn} OVER ({' '.join(x for x in (part, order + ' ROWS BETWEEN UNBOUNDED PRECEDING AND UNBOUNDED FOLLOWING') if x)})"
+        wexpr = rng.choice([win, f"{win} + 0", f"COALESCE({win}, 0)", f"CASE WHEN {win} > 1 THEN 1 ELSE 0 END", f"-({win})", f"({win}) * 2"])
+        pred = rng.choice([f"y.g > {rng.choice([0, 1, 2])}", f"y.g = {rng.choice([0, 1, 2, 3])}", f"y.w >= {rng.choice([0, 1, 2])}", f"y.g IS NOT NULL",
+                           f"y.g IN (1, 2)", f"y.g + y.w > 2"])
+        inner = f"SELECT {a} AS g, {wexpr} AS w FROM {t.name}"
+        if shape == 5:
+            return f"SELECT y.g AS p1, y.w AS p2 FROM ({inner}) AS y WHERE {pred}"
+        if shape == 6:
+            return f"WITH y AS ({inner}) SELECT y.g AS p1, y.w AS p2 FROM y WHERE {pred}"
+        return f"SELECT y.g AS p1, y.w AS p2, x.{b} AS p3 FROM {u.name} AS x JOIN ({inner}) AS y ON x.{b} = y.g WHERE {pred}"
     if shape == 0:   # unique right side through GROUP BY
         return f"SELECT {sel} FROM {t.name} AS x {jk} (SELECT {b} AS g, {agg}({c}) AS m FROM {u.name} GROUP BY {b}) AS y ON x.{a} = y.g"
     if shape == 1:   # unique right side through DISTINCT
@@ -157,7 +175,7 @@ def run_case(ctx, i, feats=FEATS):
     rng = ctx.case_rng(i)
     tables = sqlgen.gen_schema(rng)
     data = sqlgen.gen_data(rng, tables)
-    if i % 8 == 7:
+    if i % 8 >= 6:
         q = _TextQuery(targeted(rng, tables))
         ctx.count("targeted_shapes")
     else:
